@@ -132,6 +132,85 @@ theorem lines_of_file (d : Disk) (p : Nat) (c : Bytes) (h : d p = some c) (hz : 
   unfold lines at this
   exact this
 
+/-! ### writing lines and reading them back (the specification composed with the usual way of writing text) -/
+
+namespace Spec
+/-- the lines joined by a separator (LF or CR LF), no separator after the last one -/
+def join (sep : Bytes) : List Bytes → Bytes
+  | [] => []
+  | [l] => l
+  | l :: m :: t => l ++ sep ++ join sep (m :: t)
+end Spec
+
+theorem splitLF_nolf (l : Bytes) (h : ∀ b ∈ l, b ≠ 10) : Spec.splitLF l = [l] := by
+  induction l with
+  | nil => rfl
+  | cons c t ih =>
+    have hc : c ≠ 10 := h c (by simp)
+    simp only [Spec.splitLF, hc, if_false, ih (fun b hb => h b (by simp [hb])), Spec.consHead]
+
+theorem splitLF_append (l rest : Bytes) (h : ∀ b ∈ l, b ≠ 10) :
+    Spec.splitLF (l ++ 10 :: rest) = l :: Spec.splitLF rest := by
+  induction l with
+  | nil => simp [Spec.splitLF]
+  | cons c t ih =>
+    have hc : c ≠ 10 := h c (by simp)
+    simp only [List.cons_append, Spec.splitLF, hc, if_false, ih (fun b hb => h b (by simp [hb])), Spec.consHead]
+
+/-- **lines_join_crlf**: lines without LF, written with CR LF between them, are read back exactly (even lines
+    that themselves end in CR) -/
+theorem lines_join_crlf (ls : List Bytes) (hne : ls ≠ []) (h : ∀ l ∈ ls, ∀ b ∈ l, b ≠ 10) :
+    Spec.lines (Spec.join [13, 10] ls) = ls := by
+  unfold Spec.lines
+  induction ls with
+  | nil => exact absurd rfl hne
+  | cons l t ih =>
+    cases t with
+    | nil => simp [Spec.join, splitLF_nolf l (h l (by simp)), Spec.mapInit]
+    | cons m r =>
+      have hl : ∀ b ∈ l ++ [13], b ≠ 10 := by
+        intro b hb
+        rcases List.mem_append.mp hb with hb | hb
+        · exact h l (by simp) b hb
+        · simp only [List.mem_singleton] at hb; subst hb; decide
+      have e : Spec.join [13, 10] (l :: m :: r) = (l ++ [13]) ++ 10 :: Spec.join [13, 10] (m :: r) := by
+        simp [Spec.join]
+      rw [e, splitLF_append _ _ hl]
+      have ih' := ih (by simp) (fun x hx => h x (List.mem_cons_of_mem _ hx))
+      cases hs : Spec.splitLF (Spec.join [13, 10] (m :: r)) with
+      | nil => exact absurd hs (splitLF_ne_nil _)
+      | cons a b =>
+        rw [hs] at ih'
+        simp only [Spec.mapInit, ih']
+        congr 1
+        simp [Spec.stripCR]
+
+/-- **lines_join_lf**: lines without LF, none but possibly the last ending in CR, written with LF between
+    them, are read back exactly -/
+theorem lines_join_lf (ls : List Bytes) (hne : ls ≠ []) (h : ∀ l ∈ ls, ∀ b ∈ l, b ≠ 10)
+    (hcr : ∀ l ∈ ls.dropLast, l.getLast? ≠ some 13) :
+    Spec.lines (Spec.join [10] ls) = ls := by
+  unfold Spec.lines
+  induction ls with
+  | nil => exact absurd rfl hne
+  | cons l t ih =>
+    cases t with
+    | nil => simp [Spec.join, splitLF_nolf l (h l (by simp)), Spec.mapInit]
+    | cons m r =>
+      have e : Spec.join [10] (l :: m :: r) = l ++ 10 :: Spec.join [10] (m :: r) := by
+        simp [Spec.join]
+      rw [e, splitLF_append _ _ (h l (by simp))]
+      have ih' := ih (by simp) (fun x hx => h x (List.mem_cons_of_mem _ hx))
+        (fun x hx => hcr x (by simp only [List.dropLast_cons_cons]; exact List.mem_cons_of_mem _ hx))
+      have hl : l.getLast? ≠ some 13 := hcr l (by simp)
+      cases hs : Spec.splitLF (Spec.join [10] (m :: r)) with
+      | nil => exact absurd hs (splitLF_ne_nil _)
+      | cons a b =>
+        rw [hs] at ih'
+        simp only [Spec.mapInit, ih']
+        congr 1
+        simp [Spec.stripCR, hl]
+
 /-- **readLine_seq** (a line that ends in LF): the call returns `true`, leaves the line without its LF and
     without one CR before it, and the stream just behind the LF -/
 theorem readLine_lf (chunk : Nat) (_h : 2 ≤ chunk) (pre post : Bytes) (e : Bool) (hpre : ∀ b ∈ pre, b ≠ 10)
@@ -593,6 +672,32 @@ theorem written_is_read (d : Disk) (p : Nat) (bs : Bytes) (t : Bool) (chunks : L
   simp only [Spec.store] at a b c
   exact ⟨(read_back _ p _ a).1, (read_back _ p _ a).2.1, (read_back _ p _ b).1, (read_back _ p _ b).2.1,
     (read_back _ p _ c).1, (read_back _ p _ c).2.1⟩
+
+/-- **write_lines_read_lines**: text lines (NUL-free, without LF) written in one `TextFile(path).write` with CR LF
+    between them come back from `TextFile(path).lines()` exactly, for any number and length of lines -/
+theorem write_lines_read_lines (d : Disk) (p : Nat) (ls : List Bytes) (hne : ls ≠ [])
+    (h : ∀ l ∈ ls, ∀ b ∈ l, b ≠ 10 ∧ b ≠ 0) :
+    linesOf (runTx d p (.tput (Spec.join [13, 10] ls))) p = ls := by
+  have hst := (runTx_store d p (.tput (Spec.join [13, 10] ls))).1
+  simp only [Spec.store] at hst
+  have hz : Spec.NulFree (Spec.join [13, 10] ls) := by
+    clear hst hne
+    induction ls with
+    | nil => intro b hb; simp [Spec.join] at hb
+    | cons l t ih =>
+      cases t with
+      | nil => intro b hb; simp only [Spec.join] at hb; exact (h l (by simp) b hb).2
+      | cons m r =>
+        intro b hb
+        rw [Spec.join] at hb
+        rcases List.mem_append.mp hb with hb | hb
+        · rcases List.mem_append.mp hb with hb | hb
+          · exact (h l (by simp) b hb).2
+          · have : b = 13 ∨ b = 10 := by simpa using hb
+            rcases this with rfl | rfl <;> decide
+        · exact ih (fun x hx => h x (List.mem_cons_of_mem _ hx)) b hb
+  rw [lines_of_file _ p _ hst hz]
+  exact lines_join_crlf ls hne (fun l hl b hb => (h l hl b hb).1)
 
 /-! ## Directory::copy and Directory::move -/
 
